@@ -85,3 +85,4 @@ theorem all_backends (env : Env) (ops : List Op) (n : String) :
   fun k _ => get_returns_last_ack_write env k ops n
 
 end Xandikos.Theorems.C01
+
